@@ -1,5 +1,5 @@
 # replay of a bounded stand-in violation (C02): re-run native/c02_preps.py
 import sys
-print('BipartiteGraphEmbed(mean_photon_per_mode=0.25, edges=False) on modes (1, 3, 0, 2): total mean photon number 4.00000, requested 1.0')
+print('MZgate(0.5, 0.9) followed by its .H form on modes (2, 0) (gaussian backend) is not the identity (max moment change 1.15)')
 print('REPLAY-VIOLATION')
 sys.exit(1)
